@@ -88,6 +88,22 @@ C02_Honoured(o) ==
 (* C03: a service whose own request and the admissibility of its addresses  *)
 (* do not change keeps its addresses (PreferDualStack may gain the other    *)
 (* family from the same pool)                                               *)
+(* s has held exactly st under spec sp, admissibly and without a sharing conflict, at every observation  *)
+(* back to the point where it got st / sp (or the start of the walk / of this process incarnation).     *)
+(* A Service whose address became admissible only a moment ago (e.g. the conflicting holder was deleted  *)
+(* and the controller has not processed that yet) is not required to be stable.                          *)
+RECURSIVE GoodSince(_, _, _, _)
+GoodSince(k, s, sp, st) ==
+  IF k < 1 THEN TRUE
+  ELSE IF Trace[k].w # Trace[i].w \/ Trace[k].crashes # Trace[i].crashes THEN TRUE
+  ELSE LET a == Api(Trace[k]) IN
+       IF a[s] = NULL THEN TRUE
+       ELSE IF a[s].spec # sp \/ a[s].status # st THEN TRUE
+       ELSE /\ ShareConsistent(a, s)
+            /\ (Trace[k].ctl # NOCFG => AdmissibleIn(Trace[k].ctl, s, sp, st))
+            /\ AdmissibleIn(Trace[k].cfgApi, s, sp, st)
+            /\ GoodSince(k - 1, s, sp, st)
+
 C03_Stable(j, o) ==
   (SameWalk(j, i) /\ Trace[j].crashes = o.crashes) =>
      LET p == Trace[j]  a == Api(p)  b == Api(o) IN
@@ -97,6 +113,7 @@ C03_Stable(j, o) ==
           /\ \A L \in {p.ctl, p.cfgApi, o.ctl, o.cfgApi} : AdmissibleIn(L, s, a[s].spec, a[s].status)
           /\ ShareConsistent(a, s)
           /\ MemConsistent(Mem(p), s, a[s])
+          /\ GoodSince(j, s, a[s].spec, a[s].status)
           /\ \A t \in (LBs(a) \cap LBs(b)) \ {s} :
                 (Range(a[s].status) \cap Range(a[t].status) # {}) => StatusShareOK(b[s], b[t]) )
         => \/ SetEq(b[s].status, a[s].status)
@@ -104,11 +121,25 @@ C03_Stable(j, o) ==
               /\ Range(a[s].status) \subseteq Range(b[s].status)
               /\ \E q \in PoolsOf(o.ctl) : \A x \in Range(b[s].status) : Usable(q, x)
 
+IsHandlerLine(o) == o.op \in {"ReconcileOne", "PassStep"}
+(* memory form of Stable: a handler call on a Service that is entitled to its recorded addresses (by the *)
+(* API objects, by the loaded configuration and by what the controller has on record) and holds them in  *)
+(* memory leaves them in memory - whatever happens to the status write                                   *)
+C03_StableMem(j, o) ==
+  (SameWalk(j, i) /\ Trace[j].crashes = o.crashes /\ ~o.crashed /\ IsHandlerLine(o) /\ o.s \in SvcAll) =>
+     LET p == Trace[j]  a == Api(p)  b == Api(o)  s == o.s  m == Mem(p)  n == Mem(o) IN
+     ( /\ a[s] # NULL /\ b[s] # NULL /\ a[s].spec = b[s].spec
+       /\ a[s].status # <<>> /\ m[s] # NULL /\ SetEq(m[s].ips, a[s].status)
+       /\ \A L \in {p.ctl, p.cfgApi, o.ctl, o.cfgApi} : AdmissibleIn(L, s, a[s].spec, a[s].status)
+       /\ ShareConsistent(a, s)
+       /\ MemConsistent(m, s, a[s])
+       /\ GoodSince(j, s, a[s].spec, a[s].status) )
+     => (n[s] # NULL /\ Range(a[s].status) \subseteq Range(n[s].ips))
+
 (* no status write that changes nothing *)
 C03_NoSpuriousWrite(o) == \A k \in DOMAIN o.writes : ~(o.writes[k].ok /\ o.writes[k].same)
 
 (* re-processing a service right after its own successful write writes nothing *)
-IsHandlerLine(o) == o.op \in {"ReconcileOne", "PassStep"}
 C03_FixedPoint(j, o) ==
   ( /\ SameWalk(j, i) /\ IsHandlerLine(o) /\ IsHandlerLine(Trace[j]) /\ o.s = Trace[j].s
     /\ ~o.crashed /\ ~Trace[j].crashed /\ o.ctl = Trace[j].ctl
@@ -185,6 +216,7 @@ Fails(k) ==
   (IF C02_FamilyStatus(o) THEN {} ELSE {"C02.FamilyStatus"}) \cup
   (IF C02_Honoured(o) THEN {} ELSE {"C02.Honoured"}) \cup
   (IF C03_Stable(j, o) THEN {} ELSE {"C03.Stable"}) \cup
+  (IF C03_StableMem(j, o) THEN {} ELSE {"C03.StableMem"}) \cup
   (IF C03_NoSpuriousWrite(o) THEN {} ELSE {"C03.NoSpuriousWrite"}) \cup
   (IF C03_FixedPoint(j, o) THEN {} ELSE {"C03.FixedPoint"}) \cup
   (IF C06_NoLeak(o) THEN {} ELSE {"C06.NoLeak"}) \cup
